@@ -535,7 +535,7 @@ def sweep_cases(ctors, quick, rnd):
             pools = []
             for i in range(k):
                 # quick: the leading arguments of calls with >= 3 arguments come from a smaller pool
-                pool = list(one) if (not quick or i >= k - 2) else [[], [A], [SP], [COLON], [CR]]
+                pool = list(one) if (not quick or i >= k - 2) else [[A], [SP], [COLON]]
                 if i >= req and not var:
                     pool = pool + [None]
                 pools.append(pool)
@@ -764,11 +764,11 @@ def run(tier, replay=None):
                 # the same single-socket history through the server-mode code path
                 line_cases.append(({'part': 'line', 'mode': 'server', 'nsock': 1, 'script': script, 'origin': 'tlc-history'},
                                    outs[json.dumps(h)]))
-    nasty = [CR, LF, A, CR, CR, LF, LF, M1, M2, CR] + ([] if quick else [A, LF, CR])
+    nasty = [CR, LF, A, CR, CR, LF, M1, M2, CR] + ([] if quick else [LF, A, LF, CR])
     for mode in ('client', 'server'):
         for c in all_cuts_cases(nasty, mode):
             line_cases.append((c, None))
-    for _ in range(400 if quick else 3000):
+    for _ in range(300 if quick else 3000):
         line_cases.append((random_line_case(rnd, quick), None))
     lap('line cases built: %d' % len(line_cases))
 
@@ -822,7 +822,7 @@ def run(tier, replay=None):
                                % (case['call'], {k: case.get(k) for k in ('prefix', 'command', 'args')}))
     for case in sweep_cases(ctors, quick, rnd):
         add_irc(case)
-    for _ in range(2000 if quick else 30000):
+    for _ in range(1500 if quick else 30000):
         add_irc(random_irc_case(rnd, ctors))
     lap('irc cases run: %d' % len(irc_runs))
 
@@ -851,7 +851,7 @@ def run(tier, replay=None):
         fl = ex.submit(tlc.validate_traces, SPEC, 'LinesTrace', 'LinesTrace.cfg', lt + [m[1] for m in lm],
                        shards=3 if quick else 8, jvm_opts=JVM, timeout=tmo)
         fi = ex.submit(tlc.validate_traces, SPEC, 'IrcMsgTrace', 'IrcMsgTrace.cfg', it + [m[1] for m in im],
-                       shards=3 if quick else 8, jvm_opts=JVM, timeout=tmo)
+                       shards=2 if quick else 8, jvm_opts=JVM, timeout=tmo)
         lv, lstats = fl.result()
         iv, istats = fi.result()
     lap('traces judged: lines %.0fs, irc %.0fs' % (lstats['wall_s'], istats['wall_s']))
